@@ -184,6 +184,10 @@ impl HitObjectsState {
         point_str: &str,
         offset: Pos,
     ) -> Result<(), ParseHitObjectsError> {
+        // A previous line may have been rejected halfway through its path,
+        // leaving points of its leading segments behind.
+        self.curve_points.clear();
+
         let f = |this: &mut Self, point_split: &[&str]| {
             let mut start_idx = 0;
             let mut end_idx = 0;
